@@ -75,6 +75,13 @@ func (s *Spark) WriteTable(agg *aggregation.TableAggregator, rowSorter, colSorte
 		sb.Reset()
 	}
 
+	// Rows (and a header) of an earlier render that are gone now (trimmed out of the data) leave the screen
+	if len(colNames) > 0 || rowCount > 0 {
+		s.table.Truncate(rowCount + 1)
+	} else {
+		s.table.Truncate(0)
+	}
+
 	// If more rows than can display, write how many were missed
 	if len(rows) > rowCount {
 		s.table.WriteFooter(0, color.Wrapf(color.BrightBlack, "(%d more)", len(rows)-rowCount))
